@@ -10,3 +10,4 @@ Definition k_flow_async_lookup_dc : pfun :=
     SAssign ["answers"] (PCall "dns.asyncresolver.resolve/search" [(PName "record"); (PStr [83; 82; 86]); (PBool true)]);
     SReturn (PCall "_get_highest_answer" [(PName "answers")])
   ] |}.
+Definition k_flow_async_lookup_dc_defaults : list (string * pexp) := [("domain_name", PNone)].
